@@ -901,16 +901,23 @@ class NestedContainer(Task, Iterable):
             )
         )
 
-    def __dask_tokenize__(self):
+    def _element_tokens(self) -> list[str]:
         from dask.tokenize import tokenize
 
-        return (
-            type(self).__name__,
-            self.klass,
-            sorted(tokenize(a) for a in self.args),
-        )
+        tokens = [tokenize(a) for a in self.args]
+        if self.klass is set:
+            # Only a set does not depend on the order of its elements
+            tokens.sort()
+        return tokens
 
-        return super().__dask_tokenize__()
+    def __dask_tokenize__(self):
+        return (type(self).__name__, self.klass, self._element_tokens())
+
+    def __hash__(self):
+        # Must agree with GraphNode.__eq__, which compares __dask_tokenize__
+        from dask.tokenize import tokenize
+
+        return hash(tokenize(self))
 
     @staticmethod
     def to_container(*args, constructor):
@@ -985,6 +992,13 @@ class Dict(NestedContainer, Mapping):
             )
             new_args.append(new_arg)
         return type(self)(new_args)
+
+    def _element_tokens(self) -> list[str]:
+        from dask.tokenize import tokenize
+
+        # Like for a dict, the order of the items is irrelevant but every value
+        # belongs to its key
+        return sorted(tokenize(kv) for kv in batched(self.args, 2, strict=True))
 
     def __iter__(self):
         yield from self.args[::2]
